@@ -245,7 +245,7 @@ def check(ctx, res) -> None:
                 gs = wcfg.guards(n.id)
                 in_region = [t for t, pol in gs if pol and isinstance(t, ast.Compare) and
                              {x.attr for x in ast.walk(t) if is_self_attr(x)} >= {"start", "end"}]
-                others = [t for t, pol in gs if t not in in_region]
+                others = [t for t, pol in gs if t not in in_region and not wcfg.is_named_condition(t)]
                 if in_region and all(is_self_attr(t, "conditional") or (isinstance(t, ast.UnaryOp) and is_self_attr(t.operand, "conditional"))
                                      for t in others):
                     region_sets.add(c.func.value.attr)
